@@ -23,11 +23,16 @@ var (
 	vpRemoteCalls    []vpRemoteCall
 	vpMaster         *Store
 	vpMasterSessions *webSessionFactory
+	vpRemoteStalls   bool
+	vpNever          = make(chan bool)
 )
 
 // vpRemoteEndpoint is what the replica's POST reaches; returns the HTTP status (< 0: transport error).
 func vpRemoteEndpoint(method, url, ctype string, doc interface{}) int {
 	vpRemoteCalls = append(vpRemoteCalls, vpRemoteCall{method, url, ctype, doc})
+	if vpRemoteStalls {
+		<-vpNever // a master that accepts the request and never answers
+	}
 	if vpMaster == nil {
 		return -1
 	}
